@@ -31,7 +31,7 @@ for f in sorted(glob.glob("/tmp/seedres/*.json")):
             rep[cid] = {"violation_lines": len(v), "with_failing_input": sum("no-failing-input-found" not in l for l in v),
                         "first": v[0].replace(V + "/", "")[:200]}
     meta["property"] = d["id"]
-    meta["detected"] = d["id"] in rep
+    meta["detected"] = bool(rep)
     meta["reported_by"] = ", ".join("%s (%d failing-input replay%s%s)" % (k, r["with_failing_input"], "s" if r["with_failing_input"] != 1 else "", ", correspondence" if r["violation_lines"] > r["with_failing_input"] else "") for k, r in rep.items()) or "NOT REPORTED by the checks run (%s)" % ",".join(d["checks"].keys())
     meta["suite"] = "70 baseline tests pass with the change (full suite, incremental build in scratch worktree of /repo HEAD)"
     meta["confirmed_by_coordinator"] = "tools/seed_pipeline.py: demo exit 0 on pristine / %s with patch; full test suite re-run with the patch: only the 6 targets that never compile are 'Not Run'; checks run with VERIF_REPO=<patched scratch worktree>: %s" % (d.get("demo_patched_rc"), json.dumps(rep)[:600])
